@@ -12,6 +12,11 @@ def sh(*a):
 bsub = dict(l.split(" ", 1) for l in sh("git", "-C", "/repo", "log", "--format=%h %s", f"704fd0b..{branch}").splitlines() if " " in l)
 msub = {s: h for h, s in (l.split(" ", 1) for l in sh("git", "-C", "/repo", "log", "--format=%h %s", "704fd0b..HEAD").splitlines() if " " in l)}
 remap = {h: msub[s] for h, s in bsub.items() if s in msub}
+try:
+    remap.update(json.load(open(os.path.join(V, "tools", "commit_map.json"))))
+except (OSError, ValueError):
+    pass
+remap = {h: nh for h, nh in remap.items() if h != nh}
 
 man = json.load(open(os.path.join(V, "MANIFEST.json")))
 design = open(os.path.join(V, "DESIGN.md")).read()
@@ -42,7 +47,8 @@ for pid in pids:
     for l in re.findall(r"(?m)^\s*((?:fixed|known):.*)$", section("KNOWN_FINDINGS")):
         for h, nh in remap.items():
             l = re.sub(rf"\b{h}\b", nh, l)
-        if l not in kf:
+        mm = re.match(r"fixed:\s+property=(\S+)\s+(\S+)", l)
+        if l not in kf and not (mm and re.search(rf"(?m)^fixed:\s+property={mm.group(1)}\s+{mm.group(2)}\b", kf)):
             kf += l + "\n"
     d = section("DESIGN")
     if d:
